@@ -13,6 +13,7 @@ open PV
 inductive RdOut where
   | data (k : Nat)      -- return min(k, what was asked, what is left) bytes, at least one
   | fail (code : Nat)   -- answer with this error status (not EOF, not OK)
+  | drop                -- hang up: the channel is closed, no answer ever arrives (the client sees EOF on the socket)
   deriving Repr, DecidableEq
 
 inductive Res where
@@ -32,6 +33,7 @@ def nextOut : List RdOut → RdOut × List RdOut
 def rawRead (remote : Bytes) (pos size : Nat) (o : RdOut) : Except Nat (Option Bytes) :=
   match o with
   | .fail c => .error c
+  | .drop => .error 3000   -- SSHException("Server connection dropped") out of _read_response(waitfor=num)
   | .data k =>
     let avail := min size (remote.length - pos)
     if avail = 0 then .ok none else .ok (some (slice remote pos (max 1 (min k avail))))
